@@ -62,9 +62,22 @@ def rand_key_tokens(rng, n, kind, distinct=3, na=0.2):
     return [rng.choice(pool) for _ in range(n)]
 
 
-def rand_index(rng, n, kinds=('int', 'str', 'date', 'ih', 'auto'), name=True):
+def rand_index(rng, n, kinds=('int', 'str', 'date', 'ih', 'auto'), name=True, nan_ok=False):
     k = rng.choice(kinds)
-    if k == 'ih':
+    if k == 'ih' and n >= 2 and nan_ok and rng.random() < 0.4:
+        # depths of different kinds (text outside, floats inside, one of them NaN): each depth is ordered by its own dtype
+        outers = rng.sample(['b', 'a', 'c'], rng.randint(1, min(3, n)))
+        sizes = [1] * len(outers)
+        for _ in range(n - len(outers)):
+            sizes[rng.randrange(len(outers))] += 1
+        labs = []
+        for o, k2 in zip(outers, sizes):
+            inner = rng.sample([3.0, 7.0, -1.0, 0.5, 2.0, 10.0], min(k2, 6))
+            if rng.random() < 0.6:
+                inner[rng.randrange(len(inner))] = float('nan')
+            labs += [tok((o, v)) for v in inner]
+        spec = {'kind': 'ih', 'labels': labs} if len(labs) == n else gen.rand_index_spec(rng, n, kinds=('ih',))
+    elif k == 'ih':
         spec = gen.rand_index_spec(rng, n, kinds=('ih',))
     elif k == 'auto':
         spec = {'kind': 'auto', 'labels': gen.rand_labels(rng, n, 'auto')}
@@ -215,7 +228,7 @@ def keyfn_columns(desc, base_cols):
 def series_case(rng, n, big=False):
     kind = rng.choice(['int', 'float', 'str', 'bool', 'date'])
     method = rng.choice(['sort_values', 'sort_values', 'sort_index'])
-    index = rand_index(rng, n, kinds=('int', 'str', 'auto') if big else ('int', 'str', 'date', 'ih', 'auto'))
+    index = rand_index(rng, n, kinds=('int', 'str', 'auto') if big else ('int', 'str', 'date', 'ih', 'auto'), nan_ok=method == 'sort_index')
     c = {'k': 'series', 'dt': DT_OF[kind], 'v': rand_key_tokens(rng, n, kind, distinct=rng.choice([2, 3, 3, 5])),
          'index': index, 'name': tok(rng.choice([None, 'sname', 3])), 'method': method, 'asc': rng.random() < 0.5, 'keyfn': None}
     if rng.random() < 0.35 or (method == 'sort_index' and big):
@@ -226,7 +239,7 @@ def series_case(rng, n, big=False):
             if kf['f'] in ('const2', 'constframe', 'badlen'):
                 kf = {'f': 'const', 'dt': 'int64', 'v': rand_key_tokens(rng, n, 'int')}
             c['keyfn'] = kf
-    return c
+    return _drop_object_key_with_nan(c, index)
 
 
 FAMILIES = {
@@ -304,11 +317,11 @@ def frame_case(rng, max_n=6, max_m=5, big=False):
 
 
 def index_case(rng, n):
-    index = rand_index(rng, n, kinds=('int', 'str', 'date', 'ih'))
+    index = rand_index(rng, n, kinds=('int', 'str', 'date', 'ih'), nan_ok=True)
     c = {'k': 'index', 'index': index, 'asc': rng.random() < 0.5, 'keyfn': None}
     if rng.random() < 0.4:
         c['keyfn'] = rand_keyfn_index(rng, n, index)
-    return c
+    return _drop_object_key_with_nan(c, index)
 
 
 def np_case(rng, n, nkeys):
@@ -393,6 +406,15 @@ def search(ctx):
             c = frame_case(rng, big=rng.random() < 0.3)
         if c is not None:
             yield c
+
+
+def _drop_object_key_with_nan(c, index_spec):
+    """a key function handing back the depths as ONE object array puts NaN next to numbers inside an object column: NumPy's
+    order of such a column is not defined (every comparison with NaN is False) - outside the claim"""
+    kf = c.get('keyfn')
+    if kf and kf.get('f') == 'revdepth' and any('nan' in t for t in index_spec['labels']):
+        c['keyfn'] = None
+    return c
 
 
 def nontrivial(c):
